@@ -1,10 +1,10 @@
 SPECIFICATION Spec
 CONSTANTS
-  MaxN = 3
+  MaxN = 2
   Shapes <- ShapesNeg
   BigShapes <- NoShapes
   BigN = 0
-  MatSets <- MatSetsQ
+  MatSets <- MatSetsNeg
   Variant = "floor"
 INVARIANT TypeOK
 INVARIANT ShapeKept
